@@ -1729,12 +1729,55 @@ fn vv_extra_request_variable(cx: &Cx<'_>, r: &mut Rng) -> Option<Mutant> {
     out_vars(cx, cx.gd.doc.clone(), with_var(&cx.gd.vars, "zzExtra", v.clone()), format!("request carries the undeclared variable zzExtra = {v}"))
 }
 
+/// Validity-preserving: a custom field directive of the schema is applied with its required arguments only; the
+/// arguments that declare a default (also non-null ones) are omitted, which §5.4.2.1 allows.
+fn vv_custom_directive_defaults_omitted(cx: &Cx<'_>, r: &mut Rng) -> Option<Mutant> {
+    let (name, args) = pick_opt(r, &cx.ts.custom_directives.iter().collect::<Vec<_>>())?.clone();
+    let hosts: Vec<&(SetSite, usize, char)> = cx.sites.sels.iter().filter(|(_, _, k)| *k == 'f').collect();
+    let (set, idx, _) = *pick_opt(r, &hosts)?;
+    let mut doc = cx.gd.doc.clone();
+    let dirs = dirs_mut(&mut doc, set, *idx);
+    if dirs.iter().any(|d| d.name == *name) {
+        return None;
+    }
+    let given: Vec<(String, Val)> = args
+        .iter()
+        .filter(|a| a.default.is_none() && a.ty.is_nonnull())
+        .map(|a| (a.name.clone(), vh_model::gen_ts::gen_input_literal(cx.ts, &a.ty, r, 1)))
+        .collect();
+    dirs.push(Dir { name: name.clone(), args: given });
+    out(cx, doc, format!("applied @{name} on a field of {} with its defaulted arguments omitted", set.parent))
+}
+
+/// 5.4.2.1 Required Arguments, for a custom directive: a non-null argument WITHOUT default is omitted.
+fn custom_directive_missing_required_argument(cx: &Cx<'_>, r: &mut Rng) -> Option<Mutant> {
+    let with_required: Vec<&(String, Vec<vh_model::ArgDef>)> =
+        cx.ts.custom_directives.iter().filter(|(_, a)| a.iter().any(|x| x.default.is_none() && x.ty.is_nonnull())).collect();
+    let (name, args) = pick_opt(r, &with_required)?.clone();
+    let hosts: Vec<&(SetSite, usize, char)> = cx.sites.sels.iter().filter(|(_, _, k)| *k == 'f').collect();
+    let (set, idx, _) = *pick_opt(r, &hosts)?;
+    let mut doc = cx.gd.doc.clone();
+    let dirs = dirs_mut(&mut doc, set, *idx);
+    if dirs.iter().any(|d| d.name == *name) {
+        return None;
+    }
+    // every argument that has a default is given explicitly, the required one is left out
+    let given: Vec<(String, Val)> = args
+        .iter()
+        .filter(|a| a.default.is_some())
+        .map(|a| (a.name.clone(), vh_model::gen_ts::gen_input_literal(cx.ts, &a.ty, r, 1)))
+        .collect();
+    dirs.push(Dir { name: name.clone(), args: given });
+    out(cx, doc, format!("applied @{name} without its required argument"))
+}
+
 pub fn valid_variants() -> Vec<OpDef> {
     vec![
         OpDef { name: "vv_same_key_on_disjoint_object_types", rule: "5.3.2 Field Selection Merging (allowed case)", subscription: false, f: vv_same_key_on_disjoint_object_types },
         OpDef { name: "vv_single_value_for_list", rule: "3.11 List, input coercion", subscription: false, f: vv_single_value_for_list },
         OpDef { name: "vv_twin_operation", rule: "5.8 variables are scoped to their operation", subscription: false, f: vv_twin_operation },
         OpDef { name: "vv_extra_request_variable", rule: "6.1.2 Coercing Variable Values", subscription: false, f: vv_extra_request_variable },
+        OpDef { name: "vv_custom_directive_defaults_omitted", rule: "5.4.2.1 Required Arguments (allowed case)", subscription: false, f: vv_custom_directive_defaults_omitted },
     ]
 }
 
@@ -1767,6 +1810,7 @@ pub fn operators() -> Vec<OpDef> {
         op!(duplicate_argument, "5.4.2 Argument Uniqueness"),
         op!(missing_required_argument, "5.4.2.1 Required Arguments"),
         op!(missing_required_directive_argument, "5.4.2.1 Required Arguments"),
+        op!(custom_directive_missing_required_argument, "5.4.2.1 Required Arguments"),
         op!(fragment_on_unknown_type, "5.5.1.2 Fragment Spread Type Existence"),
         op!(fragment_on_noncomposite_type, "5.5.1.3 Fragments On Composite Types"),
         op!(unused_fragment, "5.5.1.4 Fragments Must Be Used"),
